@@ -30,7 +30,7 @@ NEEDED_FEATURES = [
     "filters", "mixed_discrete", "two_cont_choices", "two_cont_states", "stochastic",
     "stoch_multi_dep", "period_transition", "period_utility", "period_filter",
     "period_constraint", "leave_above", "leave_below", "log_grid", "aux_params",
-    "constraint_params", "poison", "excluded_states", "two_stochastic", "horizon_ge_11", "axis_ge_150", "three_cont_states",
+    "constraint_params", "poison", "excluded_states", "two_stochastic", "horizon_ge_11", "axis_ge_150", "three_cont_states", "int_utility",
 ]
 
 
@@ -63,6 +63,10 @@ def plan(tier, seed):
                                    "max_cells": 60000, "max_T": 3},
                       "force": {"two_stochastic": False, "mixed_discrete": False},
                       "jit_false": False, "env": {"VERIF_X64": "1"}})
+    # utility computed in integer arithmetic (integer dtype meets the float discount factor)
+    for i in range(8 if tier == "quick" else 80):
+        cases.append({"kind": "generic", "template": "int_utility", "index": 1 + i, "seed": [seed, 8, i], "cfg": "quick",
+                      "jit_false": i % 4 == 0, "env": {"VERIF_X64": "1" if i % 4 else "0"}})
     # values of -inf that are legitimately part of the solution (utility -inf in some states),
     # reached with positive probability from some rows and with probability exactly 0 from others
     for i in range(10 if tier == "quick" else 120):
@@ -256,7 +260,11 @@ def run_case(case):
             d = maxdev(got, exp)
             res["maxima"]["max_rel_dev"] = max(res["maxima"].get("max_rel_dev", 0.0), d if np.isfinite(d) else 1e300)
             if d > tol:
-                bad = np.argwhere(~(np.abs(got - exp) <= tol * (1 + np.abs(exp))) & ~(np.isinf(got) & (got == exp)))
+                with np.errstate(all="ignore"):
+                    okm = ((np.abs(got - exp) <= tol * (1 + np.abs(exp))) & np.isfinite(exp)) | (got == exp)
+                bad = np.argwhere(~okm)
+                if len(bad) == 0:  # cannot happen; keep the verdict, never crash the harness
+                    bad = np.argwhere(np.ones(exp.shape, bool))
                 i0 = tuple(int(x) for x in bad[0])
                 res["violations"].append({
                     "key": "value_mismatch",
